@@ -494,18 +494,20 @@ theorem genOpsU_ok : @NextLowerOk genOpsU ∧ @MacsOk genOpsU Stream := by
 the REGENERATED `parse_downlink_mac_commands` and payload accessors is the model's `sessionHandleRx`:
 `tieA_handle_rx_accept` of C05 / C06 / C07 for the instance `genOpsU`, on every command stream, with no simulation
 hypothesis and no hand-written reading of the commands.  Builder X: for a downlink-typed frame (`hup`); an uplink-typed
-frame never reaches the iterator (`C05.tieA_handle_rx_uplink_typed`, for every `MacOps` instance, `genOpsU` included). -/
+frame never reaches the iterator (`C05.tieA_handle_rx_uplink_typed`, for every `MacOps` instance, `genOpsU` included).
+Builder Y: likewise a fitting frame addressed to another DevAddr (`haddr`; `C05.tieA_handle_rx_other_devaddr`). -/
 theorem tieA_handle_rx_iter (D : Int) (gs : Gen.SessionRx.Session) (rs : RegionState) (g : Gen.SessionRx.Configuration)
     (rx : Gen.SessionRx.RadioBuffer) (dl : List Gen.SessionRx.Downlink) (maxp snr : Int) (ign : Bool)
     (e : Gen.SessionRx.EncryptedDataPayload)
     (hparse : rx.as_mut_for_read.parse = some e) (hup : e.is_uplink = false)
+    (haddr : ¬ (e.as_bytes.length : Int) > maxp + 5 → e.fhdr.dev_addr = gs.devaddr)
     (hw : SessWF gs) (hmax : 0 ≤ maxp ∧ maxp ≤ 255) (hwire : 0 ≤ e.fhdr.fcnt)
     (hdec : ∀ f, Gen.SessionRx.next_fcnt_down gs.fcnt_down e.fhdr.fcnt = some f → e.validate_mic (nwkOf gs) f = true →
       ∃ d, rx.as_mut_for_read.decrypt_in_place (some (nwkOf gs)) (some (appOf gs)) f = some d ∧ DecWF Stream d) :
     (@Gen.SessionRx.Session.handle_rx RegionState genOpsU D gs rs g rx dl maxp snr ign).bind
         (fun out => (respOf out.1).map (fun r => (r, sessOf out.2.1, out.2.2.1, cfgOf out.2.2.2.1, out.2.2.2.2.2.map dlOf)))
       = (sessionHandleRx (sessOf gs) (cfgOf g) rs (dataOf gs e (decOf gs rx e)) maxp.toNat snr ign).toOption.map (expect dl D) :=
-  @tieA_handle_rx_accept genOpsU Stream genOpsU_ok.1 genOpsU_ok.2 D gs rs g rx dl maxp snr ign e hparse hup hw hmax hwire hdec
+  @tieA_handle_rx_accept genOpsU Stream genOpsU_ok.1 genOpsU_ok.2 D gs rs g rx dl maxp snr ign e hparse hup haddr hw hmax hwire hdec
 
 /-- builder S's example frame through the regenerated `handle_rx`, `handle_downlink_macs`, iterator and accessors -/
 example :
